@@ -66,6 +66,19 @@ pub fn shape_type_name(shape: Shape) -> String {
     format!("Sh<{},{}>", shape.size, shape.align)
 }
 
+/// Type names under which the shapes are recorded: one name per shape, or coarser namings in
+/// which one name stands for several sizes and / or alignments (what stand-in types and
+/// overrides produce; such a definition need not compile, but it must still be a function of
+/// the history).
+pub fn shape_type_name_with(shape: Shape, naming: usize) -> String {
+    match naming {
+        0 => shape_type_name(shape),
+        1 => format!("BySize<{}>", shape.size),
+        2 => format!("ByAlign<{}>", shape.align),
+        _ => format!("Coarse{}", (shape.size + shape.align) % 3),
+    }
+}
+
 /// System under test: one of the two builders.
 pub trait Sut {
     fn add(&mut self, name: &str, shape: Shape, uninit: bool) -> Answer;
@@ -86,6 +99,8 @@ pub struct NativeSut {
     /// Number of variants created so far (known from close answers).
     pub nvariants: usize,
     pub ndata: usize,
+    /// see `shape_type_name_with`
+    pub naming: usize,
 }
 
 impl NativeSut {
@@ -94,6 +109,7 @@ impl NativeSut {
             builder: NativeRecordDefinitionBuilder::new(HostTypeResolver),
             nvariants: 0,
             ndata: 0,
+            naming: 0,
         }
     }
 
@@ -108,7 +124,7 @@ impl Sut for NativeSut {
             self.builder.add_datum_override::<(), _>(
                 name,
                 DatumDefinitionOverride {
-                    type_name: Some(shape_type_name(shape)),
+                    type_name: Some(shape_type_name_with(shape, self.naming)),
                     size: Some(shape.size),
                     align: Some(shape.align),
                     allow_uninit: Some(uninit),
@@ -314,7 +330,12 @@ pub fn apply<S: Sut>(sut: &mut S, hist: &History, req: &Req, issued: &mut Vec<us
 
 /// Replays a *valid* history on a fresh native builder and builds the definition.
 pub fn build_native(hist: &History) -> Result<RecordDefinition<NativeDatumDetails>, String> {
+    build_native_named(hist, 0)
+}
+
+pub fn build_native_named(hist: &History, naming: usize) -> Result<RecordDefinition<NativeDatumDetails>, String> {
     let mut sut = NativeSut::new();
+    sut.naming = naming;
     let mut issued = Vec::new();
     for req in &hist.reqs {
         match apply(&mut sut, hist, req, &mut issued) {
